@@ -39,6 +39,7 @@ def run(ctx):
     storefam.run_family(ctx, seeds=seeds, sweep=True)
     # histories of 30 steps over 3 users / 4 passwords / 3 parameter sets, each against one real directory
     storefam.histories(ctx, 400 if not thorough else 6000)
+    storefam.short_histories(ctx)
     # histories with failed operations caused by I/O errors: a failed add/update must not change what
     # authenticates, exists or is listed (one real run per failing system call of the write protocol)
     drv = fsfam.Driver(ctx)
